@@ -25,6 +25,7 @@ DT == INSTANCE DirTree
 Rec == ndJsonDeserialize(IOEnv.TRACE)
 
 Empty == 0                          \* the token of the empty content
+Hash(c) == c                        \* content tokens are assigned by byte equality: the hash is injective on them
 VARIABLES l, nfail,
           abs, tileById, dataByHash, idsByHash, reply,     \* TileStore
           cfg,                                             \* settings + metadata token the user set
@@ -45,7 +46,7 @@ DefaultCfg == [ic |-> 2, tc |-> 0, tt |-> 0, minz |-> 0, maxz |-> 0, cz |-> 0,
 (* ---- observations of the hook (feature verif): sizes of the builder's maps ---------- *)
 \* evaluated on the state AFTER the call (primed variables written out: the event itself is a constant)
 MemContentsP == {x[3] : x \in {y \in tileById' : y[2] = "mem"}}
-MemBytesP == FoldSet(LAMBDA c, acc : acc + lens'[c], 0, dataByHash')
+MemBytesP == FoldSet(LAMBDA p, acc : acc + lens'[p[2]], 0, dataByHash')
 CountsTagsP(e) ==
   IF ~Has(e, "counts") THEN {}
   ELSE (IF e.counts[1] # Cardinality(abs') THEN {"C04:num_ids_differs_from_map"} ELSE {})
@@ -183,7 +184,7 @@ TrBulk ==
          m  == {<<ts[k].id, ts[k].tok>> : k \in 1..Len(ts)} IN
        /\ abs' = m
        /\ tileById' = {<<p[1], "mem", p[2]>> : p \in m}
-       /\ dataByHash' = {p[2] : p \in m}
+       /\ dataByHash' = {<<p[2], p[2]>> : p \in m}
        /\ idsByHash' = {<<p[2], p[1]>> : p \in m}
        /\ lens' = [c \in {ts[k].tok : k \in 1..Len(ts)} |-> 0] @@ lens    \* lengths unused for bulk
        /\ reply' = Ok
